@@ -200,22 +200,78 @@ Proof. vm_compute. reflexivity. Qed.
 Lemma data_types_have_no_custom_prefix : forallb (fun t => negb (String.prefix "custom_" t)) EMD_data_group_types = true.
 Proof. vm_compute. reflexivity. Qed.
 
-Theorem custom_attributes_are_returned_by_name_and_are_not_children attrs kids :
+Theorem custom_attributes_are_returned_by_name_and_are_not_children md attrs kids :
   (forall kv, In kv attrs -> mem (snd kv) EMD_data_group_types = true) ->
   (forall kv, In kv kids -> mem (snd kv) EMD_data_group_types = true) ->
-  attr_data (custom_links attrs kids) = map fst attrs /\ tree_children (custom_links attrs kids) = map fst kids.
+  attr_data (custom_links md attrs kids) = map fst attrs /\ tree_children (custom_links md attrs kids) = map fst kids.
 Proof.
   intros Ha Hk. unfold attr_data, tree_children, custom_links. rewrite !filter_app, !map_app.
   pose proof custom_types_are_not_data_types as H1. pose proof data_types_have_no_custom_prefix as H2. rewrite forallb_forall in H1, H2.
   assert (forall t, mem t EMD_data_group_types = true -> In t EMD_data_group_types) as Hin by (intros t; apply mem_In).
+  assert (filter (fun kv : string * string => String.prefix "custom_" (snd kv)) (if md then [("metadatabundle", "metadatabundle")] else []) = []) as -> by (destruct md; reflexivity).
+  assert (filter (fun kv : string * string => mem (snd kv) EMD_data_group_types) (if md then [("metadatabundle", "metadatabundle")] else []) = []) as -> by (destruct md; vm_compute; reflexivity).
+  cbn [map app].
   split.
   - assert (filter (fun kv : string * string => String.prefix "custom_" (snd kv)) kids = []) as ->.
     { clear -Hk H2 Hin. induction kids as [|kv r IH]; [reflexivity|]. cbn. specialize (H2 (snd kv) (Hin _ (Hk kv (or_introl eq_refl)))). apply negb_true_iff in H2. rewrite H2.
       apply IH. intros x Hx. apply Hk. right. exact Hx. }
-    rewrite app_nil_r. clear. induction attrs as [|kv r IH]; [reflexivity|]. cbn [map filter snd fst].
+    cbn [map]. rewrite app_nil_r. clear. induction attrs as [|kv r IH]; [reflexivity|]. cbn [map filter snd fst].
     assert (String.prefix "custom_" ("custom_" +++ snd kv) = true) as -> by (destruct (snd kv); reflexivity). cbn [map fst]. rewrite IH. reflexivity.
   - assert (filter (fun kv : string * string => mem (snd kv) EMD_data_group_types) (map (fun kv => (fst kv, "custom_" +++ snd kv)) attrs) = []) as ->.
     { clear -Ha H1 Hin. induction attrs as [|kv r IH]; [reflexivity|]. cbn [map filter snd]. specialize (H1 (snd kv) (Hin _ (Ha kv (or_introl eq_refl)))). apply negb_true_iff in H1. rewrite H1.
       apply IH. intros x Hx. apply Ha. right. exact Hx. }
     cbn [app map]. clear -Hk. induction kids as [|kv r IH]; [reflexivity|]. cbn [filter map]. rewrite (Hk kv (or_introl eq_refl)). cbn [map fst]. rewrite IH; [reflexivity|]. intros x Hx. apply Hk. right. exact Hx.
+Qed.
+
+(* ---------- soundness of a successful lookup: the class returned is one bound under that very name *)
+Theorem found_class_was_bound_under_that_name b sm n c :
+  get_class b sm n = Ok c ->
+  get b n = Some c \/ exists m, In m sm /\ fst m = true /\ exposed walk_maxdepth (snd m) n c.
+Proof.
+  intros H. apply found_is_the_table_entry in H. rewrite class_table_get in H.
+  remember (get b n) as acc eqn:Ea. clear Ea. revert acc H. induction sm as [|m r IH]; intros acc H; cbn [fold_left] in H; [left; exact H|].
+  destruct (IH _ H) as [Hacc|(m' & Hin & Hh & He)]; [|right; exists m'; split; [right; exact Hin|split; assumption]].
+  destruct (fst m) eqn:Eh; [|left; exact Hacc].
+  destruct (last_binding walk_maxdepth (snd m) n) as [c'|] eqn:El; cbn [ovr] in Hacc; [|left; exact Hacc].
+  injection Hacc as ->. right. exists m. split; [left; reflexivity|]. split; [exact Eh|apply last_binding_exposed; exact El].
+Qed.
+
+(* ---------- the documented depth: a class in a chain of d hooked sub-modules *)
+Fixpoint nest (d : nat) (k n : string) (c : nat) : list (string * member) :=
+  match d with 0 => [(n, MClass c true)] | S d' => [(k, MMod true (nest d' k n c))] end.
+Lemma nest_exposed d : forall f k n c, exposed f (nest d k n c) n c <-> d < f.
+Proof.
+  induction d as [|d IH]; intros f k n c; destruct f as [|f]; cbn [exposed nest].
+  - split; [intros []|lia].
+  - split; [lia|]. intros _. left. split; reflexivity.
+  - split; [intros []|lia].
+  - rewrite <- Nat.succ_lt_mono. rewrite <- (IH f k n c). split; [intros [H|[]]; exact H|intros H; left; exact H].
+Qed.
+Lemma nest_exposes_only d : forall f k n c n' c', exposed f (nest d k n c) n' c' -> n' = n /\ c' = c.
+Proof.
+  induction d as [|d IH]; intros f k n c n' c' H; destruct f as [|f]; cbn [exposed nest] in H; try contradiction.
+  - destruct H as [(-> & ->)|[]]. split; reflexivity.
+  - destruct H as [H|[]]. eapply IH. exact H.
+Qed.
+Theorem nested_up_to_the_documented_depth_is_found d k n c b :
+  get b n = None -> d < walk_maxdepth -> get_class b [(true, nest d k n c)] n = Ok c.
+Proof.
+  intros Hb Hd. eapply exposed_class_is_found with (m := (true, nest d k n c)); [|left; reflexivity|reflexivity|apply nest_exposed; exact Hd].
+  split; [intros c' Hc; congruence|]. intros m c' [<-|[]] _ He. apply nest_exposes_only in He. apply He.
+Qed.
+Theorem nested_deeper_is_an_error d k n c b :
+  get b n = None -> walk_maxdepth <= d -> exists e, get_class b [(true, nest d k n c)] n = Err e.
+Proof.
+  intros Hb Hd. apply unexposed_class_is_an_error; [exact Hb|]. intros m c' [<-|[]] _ He.
+  destruct (nest_exposes_only _ _ _ _ _ _ _ He) as (_ & ->). apply nest_exposed in He. cbn [snd] in He. lia.
+Qed.
+
+(* ---------- hook values *)
+Lemma only_True_opts_in_at_top_level h : hook_top h = true <-> h = HTrue.
+Proof. destruct h; cbn; split; intros H; try discriminate; reflexivity. Qed.
+Lemma unhooked_top_modules_are_not_searched b sm1 sm2 h ms n :
+  hook_top h = false -> get_class_raw b (sm1 ++ (h, ms) :: sm2) n = get_class_raw b (sm1 ++ sm2) n.
+Proof.
+  intros Hh. unfold get_class_raw, get_class, class_table. rewrite !map_app. cbn [map]. rewrite !fold_left_app. cbn [fold_left].
+  unfold norm_top at 2. cbn [fst snd]. rewrite Hh. reflexivity.
 Qed.
